@@ -220,6 +220,16 @@ class Imager:
         self.w.restore_io()
 
     def take(self, side, label):
+        """runs inside the call stack of the code under test: whatever goes wrong HERE is a harness error, never an
+        exception of the operation"""
+        try:
+            self._take(side, label)
+        except core.HarnessError:
+            raise
+        except Exception as e:  # noqa
+            raise core.HarnessError(f'crash image before {side}:{label} failed: {e!r}') from e
+
+    def _take(self, side, label):
         import copy
 
         w = self.w
@@ -253,6 +263,7 @@ class Imager:
             return
         self.n += 1
         img = f'{w.dir}-i{self.n:04d}'
+        shutil.rmtree(img, ignore_errors=True)  # pids are recycled: a killed earlier process may have left this name
         os.makedirs(img)
         copy_store(w.dir, img)
         model = copy.deepcopy(w.model)
